@@ -76,11 +76,17 @@ def _gen_case(rng, tier):
     sched = gen_schedule(rng, D, B)
     if D > 20000 and sched['mode'] in ('regular', 'rand', 'cuts'):
         sched = {'mode': 'regular', 'k': rng.choice([B - 1, B, 1000, 4096])}
-    return {
+    case = {
         'S': hx(data), 'L': L, 'B': B, 'sched': sched,
         'temp': 'mem' if rng.random() < 0.3 else 'real',
         'via': 'direct' if rng.random() < 0.2 else 'wsgi',
     }
+    if case['via'] == 'wsgi' and rng.random() < 0.15:
+        # a configured max_body_size: an over-limit body is refused (413), and even then the stream is
+        # never read beyond Content-Length (a pipelined request may follow)
+        case['M'] = max(0, rng.choice([0, 1, B, D - 1, D, D // 2, D + 1, 3]))
+        case['retry'] = rng.random() < 0.5
+    return case
 
 
 def sweep_units(tier, root):
@@ -142,12 +148,24 @@ def _run_case(case):
                 violation(res, 'C04:error', f'_body_read raised {type(e).__name__}: {e}')
         log('direct')
     else:
-        o = body_request(S, case['sched'], B=B, cl=L, tempmode=case['temp'], touch=('body', 'input'))
+        M = case.get('M')
+        o = body_request(S, case['sched'], B=B, M=M, cl=L, tempmode=case['temp'], touch=('body', 'input'),
+                         retry=bool(case.get('retry')))
         stream = o.stream
         status = o.resp.code
         log('status', o.resp.status)
+        over_limit = M is not None and len(expected) > M
+        if over_limit:
+            res['probes']['over_max_body_size'] += 1
         if o.hang is not None:
             violation(res, 'C04:hang', f'reader did not terminate: {o.hang}')
+        elif over_limit and o.resp.escaped is None and status == 413:
+            # refused as configured; the read accounting below still applies
+            if 'retry_body' in o.seen:
+                violation(res, 'C04:refused-body-readable-on-retry',
+                          f'a body refused with 413 was handed out ({len(o.seen["retry_body"])} bytes) on the second access')
+            if case.get('retry'):
+                res['fired']['body_touched_again_after_413'] += 1
         elif o.resp.escaped is not None or status != 200:
             exc = o.handler_exc
             violation(res, 'C04:error',
@@ -217,6 +235,10 @@ def _shrink_candidates(case):
         yield c
     for sc in simpler_schedules(case['sched']):
         yield shrink.with_key(case, 'sched', sc)
+    if case.get('M') is not None:
+        c = dict(case)
+        c.pop('M')
+        yield c
     if case['L'] is not None:
         for v in shrink.int_cands(case['L'], 0, prefer=[len(S)]):
             yield shrink.with_key(case, 'L', v)
